@@ -256,6 +256,9 @@ func (a attr) proto() *onnx.AttributeProto {
 	return &onnx.AttributeProto{Name: a.name, Ints: a.ints, Type: onnx.AttributeProto_INTS}
 }
 func f32bits(x float32) string {
+	if payloadAsIntegers { // integer-valued attribute floats are printed by value, like the payloads
+		return zlit(int64(x))
+	}
 	if x != x {
 		return qnan32
 	}
@@ -354,7 +357,92 @@ func tvals(ts []tensor.Tensor) string {
 func emitOp(cw *caseWriter, op string, attrs []attr, mkIns func() []tensor.Tensor) string {
 	ins := mkIns()
 	obs := observe(op, attrs, ins)
+	sideObservations(op, attrs, mkIns, obs, ins)
 	return writeOpCase(cw, op, attrs, mkIns(), obs, ins)
+}
+
+// Side observations made on every operator case of every stream:
+//  - effects (C02): the input tensors after the call must be what they were before it;
+//  - instance reuse: ONE operator instance applied first to the previous case of the same operator
+//    and attributes and then to this one must behave like a fresh instance (Apply must not leave
+//    state behind that changes a later Apply).
+var effectsAll = goOnlyResult{Stream: "effects_all_streams", Rule: "every operator case generated by the operator-level streams (C03, C04, C05, C07, C08, C09, C10, C11, C06 generators): deep snapshot (dtype, shape, payload bits) of every input after Init/ValidateInputs/Apply equals the snapshot before", Violations: []string{}}
+var reuseAll = goOnlyResult{Stream: "instance_reuse", Rule: "one operator instance (one Init) applied to the previous case's inputs and then to this case's inputs returns what a fresh instance returns for this case", Violations: []string{}}
+var lastIns = map[string]func() []tensor.Tensor{}
+// Conv fills its attribute fields (dilations, kernel_shape, pads, strides) from its FIRST input when
+// they are absent; an instance re-used on another geometry is something Model.Run never does (one
+// operator per node per Run, C15), so that is not judged here.
+var reuseSkip = map[string]bool{"Conv": true}
+
+func sideObservations(op string, attrs []attr, mkIns func() []tensor.Tensor, obs string, after []tensor.Tensor) {
+	effectsAll.N++
+	if a, b := tvals(mkIns()), tvals(after); a != b && len(effectsAll.Violations) < 10 {
+		ap := make([]string, len(attrs))
+		for i, x := range attrs {
+			ap[i] = x.gallina()
+		}
+		effectsAll.Violations = append(effectsAll.Violations, fmt.Sprintf("%s [%s]: inputs changed by the call: before %s after %s", op, strings.Join(ap, ";"), clip(a, 400), clip(b, 400)))
+	}
+	if reuseSkip[op] {
+		return
+	}
+	ap := make([]string, len(attrs))
+	for i, x := range attrs {
+		ap[i] = x.gallina()
+	}
+	key := op + "|" + strings.Join(ap, ";")
+	if prev, ok := lastIns[key]; ok {
+		reuseAll.N++
+		if obs2 := observeReused(op, attrs, prev(), mkIns()); obs2 != obs && len(reuseAll.Violations) < 10 {
+			reuseAll.Violations = append(reuseAll.Violations, fmt.Sprintf("%s [%s]: an instance that was applied to %s before returns %s for inputs %s, a fresh instance returns %s", op, strings.Join(ap, ";"), clip(tvals(prev()), 300), clip(obs2, 300), clip(tvals(mkIns()), 300), clip(obs, 300)))
+		}
+	}
+	lastIns[key] = mkIns
+}
+
+func clip(s string, n int) string {
+	if len(s) > n {
+		return s[:n] + " ..."
+	}
+	return s
+}
+
+func observeReused(op string, attrs []attr, first, second []tensor.Tensor) (obs string) {
+	defer func() {
+		if r := recover(); r != nil {
+			obs = "OPanic"
+		}
+	}()
+	o, err := opset13.GetOperator(op)
+	if err != nil {
+		return "(OErr " + ekind(err) + ")"
+	}
+	var ap []*onnx.AttributeProto
+	for _, a := range attrs {
+		ap = append(ap, a.proto())
+	}
+	if err := o.Init(&onnx.NodeProto{Attribute: ap}); err != nil {
+		return "(OErr " + ekind(err) + ")"
+	}
+	func() {
+		defer func() { recover() }()
+		if v, err := o.ValidateInputs(first); err == nil {
+			o.Apply(v)
+		}
+	}()
+	v, err := o.ValidateInputs(second)
+	if err != nil {
+		return "(OErr " + ekind(err) + ")"
+	}
+	out, err := o.Apply(v)
+	if err != nil {
+		return "(OErr " + ekind(err) + ")"
+	}
+	parts := make([]string, len(out))
+	for i, t := range out {
+		parts[i] = tval(t)
+	}
+	return "(OOk [" + strings.Join(parts, ";") + "])"
 }
 
 func writeOpCase(cw *caseWriter, op string, attrs []attr, shown []tensor.Tensor, obs string, after []tensor.Tensor) string {
